@@ -231,8 +231,15 @@ func init() {
 			sp := c09Parse(spec)
 			ts := sp.Table
 			probe := tabular.New()
-			c09Build(sp, probe)
-			view := extractView(probe)
+			if o := capture(func() (string, error) { c09Build(sp, probe); return "", nil }); o.Kind == "panic" {
+				// the building calls themselves panicked: there is no table to render (not this property's concern)
+				return CaseOut{Coq: "(mkView 0%nat None [] [None] [None], [])", Desc: map[string]interface{}{"skipped": "build panicked: " + o.Panic},
+					Size: ts.Size(), Tags: []string{"skipped=build-panicked"}, Key: string(spec), Nontrivial: false}
+			}
+			var view View
+			if o := capture(func() (string, error) { view = extractView(probe); return "", nil }); o.Kind == "panic" {
+				view = ts.SpecView() // reading the table back panicked (the renders below will show why)
+			}
 			var outs []string
 			type bad struct {
 				Target string
